@@ -23,7 +23,7 @@ for nb in (1, 2):
 
 # HLPwrite: bounded block walk with creation of missing blocks/tables (slow: thorough tier)
 for nb, nt in [(1, 3), (2, 2)]:
-    ob(f"HLPwrite_nb{nb}_nt{nt}", ["C01"], entry="h_HLPwrite", enforce="HLPwrite", mode="bounded",
+    ob(f"HLPwrite_nb{nb}_nt{nt}", ["C01", "C02", "C04", "C16"], entry="h_HLPwrite", enforce="HLPwrite", mode="bounded",
        bound=f"<= {nt} block tables (existing or created) of number_blocks == {nb}, first_length 0..2, block_length 1..2, posn <= 6, "
              f"length -1..6 (symbolic), missing blocks arbitrary, faults injected at every sub-access",
        unwind=5, cex_unwind=5, timeout=2400, tier="thorough", flags=["--sat-solver", "cadical"], backend="cbmc SAT (cadical)",
